@@ -833,3 +833,74 @@ def _c03x(fb, rep):
 
 
 RULES['C03'] = _c03x
+
+
+def forest_twins(fb, rep, rule, K):
+    """R10.6 / R11.9: the Forest-Tomlin update works on the column file WITHOUT values (u.col.val is not kept up to date during the update); the helpers
+    that move or pack that file exist twice - packColumns()/forestPackColumns(), minColMem()/forestMinColMem() - and a member function named forest*
+    calls the forest* twin of every helper that has one.  (written after seed C10-5 was missed)"""
+    rep.rule(rule, '%s: a forest* member function calls the forest* twin of every helper that has one' % K.replace('soplex::', ''), floor=4)
+    ms = {f.short: f for f in fb.methods_of(K) if f.nodes and f.short}
+    twins = {n: 'forest' + n[0].upper() + n[1:] for n in ms if ('forest' + n[0].upper() + n[1:]) in ms}
+    k = 0
+    for n, f in sorted(ms.items()):
+        if not n.startswith('forest'):
+            continue
+        for c in f.calls():
+            if c.short in twins or (c.short in twins.values()):
+                k += 1
+                rep.check(c.short not in twins, rule, '%s|%s#%d' % (n, c.short, k), '%s:%d' % (f.file, c.l), 'calls the forest twin',
+                          '%s calls %s(); during a Forest-Tomlin update the column file carries no values, the variant for that state is %s()' % (n, c.short, twins.get(c.short)))
+    if k < 4:
+        raise AnalysisBroken('%s: only %d calls of twinned helpers in forest* functions of %s' % (rule, k, K))
+
+
+_c10a, _c11b = RULES['C10'], RULES['C11']
+
+
+def _c10(fb, rep):
+    _c10a(fb, rep)
+    forest_twins(fb, rep, 'R10.6', 'soplex::CLUFactor<double>')
+
+
+def _c11x(fb, rep):
+    _c11b(fb, rep)
+    forest_twins(fb, rep, 'R11.9', 'soplex::CLUFactorRational')
+
+
+RULES['C10'] = _c10
+RULES['C11'] = _c11x
+
+
+def c11d(fb, rep):
+    """R11.10: the cached rational factorization belongs to the basis of the EXTENDED LP; a function that undoes an LP extension of the exact solver and
+    cuts the basis status arrays back (reSize) discards the factorization on every path from that statement to its exit (taking a non-empty extension:
+    `_slackCols.num() > 0` etc. are assumed true, an empty extension changes nothing).  (written after seed C11-6 was missed)"""
+    from engine import Assume
+    rep.rule('R11.10', 'undo of an LP extension: after the basis status arrays are cut back the cached rational factorization is cleared on every path', floor=4)
+    A = Assume(hook=lambda n, txt: True if re.fullmatch(r'\(?\w+\.(num|size)\(\) > 0\)?', txt) else None)
+    k = 0
+    for tname, uname in PAIRS_EXACT:
+        u = fb.one(C + '::' + uname)
+        g = Graph(u, A)
+        for n in u.nodes:
+            if n.k == 'CXXMemberCallExpr' and n.short == 'reSize' and n.obj() is not None and render(strip(n.obj())).replace('this->', '') in ('_basisStatusCols', '_basisStatusRows'):
+                k += 1
+                ok, path = g.must_pass(lambda x: x.k == 'CXXMemberCallExpr' and x.short == 'clear' and x.obj() is not None and render(strip(x.obj())).replace('this->', '') == '_rationalLUSolver',
+                                       start=g.block_of(n))
+                rep.check(ok, 'R11.10', '%s|%s#%d' % (uname, render(n)[:40], k), '%s:%d' % (u.file, n.l), 'factorization cleared afterwards',
+                          '%s cuts the basis back (%s) and has a path to its exit without _rationalLUSolver.clear(): the cached factorization of the extended basis matrix answers '
+                          'the next getBasisInverse*Rational() / rational factorization step' % (uname, render(n)[:40]))
+    if k < 4:
+        raise AnalysisBroken('R11.10: only %d re-sizes of the basis status arrays in the undo functions' % k)
+
+
+_c11y = RULES['C11']
+
+
+def _c11z(fb, rep):
+    _c11y(fb, rep)
+    c11d(fb, rep)
+
+
+RULES['C11'] = _c11z
